@@ -170,7 +170,7 @@ fn stage(i: &Input, c: &mut Case) -> Result<(), String> {
 pub const STAGES: &[Stage] = &[Stage { name: "structure", f: stage }];
 
 pub fn run(rc: &mut RunCtx) {
-    rc.run_pt(STAGES[0], rc.pick(240_000, 5_000_000), (96, 500));
+    rc.run_pt(STAGES[0], rc.pick(960_000, 5_000_000), (96, 500));
     for l in ["implied_ancestors", "mixed_known_unknown", "input_mutated", "input_mid_document", "ended_cleanly", "ended_in_error", "template_outer_element_inside_known_child_of_unknown", "template_first_non_global_element_inside_open_global_masters"] {
         rc.require_label("structure", l, 10_000);
     }
